@@ -260,6 +260,10 @@ def is_num(v):
     return isinstance(v, sp.Basic)
 
 
+class TermKey(str):
+    """dictionary key standing for an opaque (closed) term, e.g. an object of an external library."""
+
+
 def is_unknown(v):
     return isinstance(v, Unknown)
 
@@ -1212,9 +1216,12 @@ class Evaluator:
                     if not keep:
                         continue
                     k = self.expr(n.key, e2, fr)
-                    if not isinstance(k, Const):
+                    if isinstance(k, Const):
+                        out[k.v] = self.expr(n.value, e2, fr)
+                    elif isinstance(k, App) and not contains_unknown(k):
+                        out[TermKey(show(k, 10 ** 6))] = self.expr(n.value, e2, fr)     # an opaque object used as a key
+                    else:
                         return Unknown('dict comprehension with symbolic key')
-                    out[k.v] = self.expr(n.value, e2, fr)
                 return DictV([out])
         if isinstance(n, ast.SetComp):
             as_list = ast.ListComp(elt=n.elt, generators=n.generators)
@@ -1318,12 +1325,19 @@ class Evaluator:
                 return Const((a.v in [i.v for i in b.items]) == pos)
             if isinstance(a, Const) and isinstance(b, DictV) and not b.has_symbolic():
                 return Const((a.v in b.keys()) == pos)
+            if isinstance(a, App) and not contains_unknown(a) and isinstance(b, DictV) and not b.has_symbolic() \
+                    and any(isinstance(k_, TermKey) for k_ in b.keys()):
+                return Const((TermKey(show(a, 10 ** 6)) in b.keys()) == pos)
             if isinstance(a, Const) and isinstance(b, Const) and isinstance(b.v, str) and isinstance(a.v, str):
                 return Const((a.v in b.v) == pos)
             return Cmp('in' if pos else 'notin', a, b)
         if isinstance(op, (ast.Eq, ast.NotEq)) and isinstance(a, Obj) and getattr(a, 'truth', None) is True \
                 and isinstance(b, Const) and b.v == '':
             return Const(isinstance(op, ast.NotEq))
+        if isinstance(op, (ast.Eq, ast.NotEq)):
+            for x, y in ((a, b), (b, a)):
+                if isinstance(x, Const) and (x.v is None or isinstance(x.v, str)) and is_num(y) and y.is_number:
+                    return Const(isinstance(op, ast.NotEq))      # None / a string never equals a number
         if isinstance(a, Const) and isinstance(b, Const):
             try:
                 r = {ast.Eq: a.v == b.v, ast.NotEq: a.v != b.v}.get(type(op))
@@ -1527,7 +1541,7 @@ class Evaluator:
                     return self.call(c.methods[n.func.attr], [fr.self_obj] + args, kwargs, fr.depth + 1)
             if 'super:' + n.func.attr in self.hooks:
                 # a base class outside the repository (dict, list, ...): let the rule observe the call and its path condition
-                pc_now = list(self._stack[-1][1]) if self._stack else []
+                pc_now = [c for _, pc_ in self._stack for c in pc_]   # the callers' conditions too
                 return self.hooks['super:' + n.func.attr](self, [fr.self_obj] + args, dict(kwargs, __pc__=pc_now))
             return Const(None)
         # method call on a value
@@ -1723,6 +1737,10 @@ class Evaluator:
                 return v
             if meth in ('items', 'keys', 'values'):
                 return App('dict.' + meth, (base.copy(),))
+        if isinstance(base, Obj) and isinstance(base.fields.get('__data__'), DictV) and meth in ('items', 'keys', 'values') \
+                and not args:
+            # a mapping object whose entries the rule supplied (keyed record)
+            return App('dict.' + meth, (base.fields['__data__'].copy(),))
         if isinstance(base, Obj) and base.cls in ('RegionMeta', 'RegionVisual') and base.path:
             if meth == 'get':
                 return App('meta.get', (base,) + tuple(args))
@@ -1826,6 +1844,8 @@ class Evaluator:
                         return sp.Float(v_) if short == 'float' else sp.Integer(v_)
                 except ValueError:
                     pass
+            if short in ('float', 'int') and len(a) == 1 and isinstance(a[0], Const) and isinstance(a[0].v, bool):
+                return sp.Integer(int(a[0].v)) if short == 'int' else sp.Float(float(a[0].v))
             if short == 'int' and len(a) == 1 and isinstance(a[0], sp.Float) and float(a[0]) == int(float(a[0])):
                 return sp.Integer(int(float(a[0])))
             if short in ('float', 'int') and len(a) == 1 and is_num(a[0]):
@@ -2368,6 +2388,8 @@ def _index(base, k):
         v = base.get(k.v)
         if v is not None and not (isinstance(v, Const) and v.v == '__absent__'):
             return v
+    if isinstance(base, DictV) and isinstance(k, App) and not contains_unknown(k) and TermKey(show(k, 10 ** 6)) in base.keys():
+        return base.get(TermKey(show(k, 10 ** 6)))
     if isinstance(base, Ite):
         return mk_ite(base.cond, _index(base.a, k), _index(base.b, k))
     if isinstance(k, int):
